@@ -473,4 +473,40 @@ Section Clone.
     { apply existsb_exists. exists a. split; [exact Hin|apply Nat.eqb_refl]. }
     now rewrite E.
   Qed.
+
+  (** any history of assignments *)
+  Definition upds (h : heap) (ops : list (addr * hnode)) : heap :=
+    fold_left (fun hh o => upd hh (fst o) (snd o)) ops h.
+
+  (** C20_history_clone: after any sequence of assignments to objects of the clone, every
+      tree of the original heap is as it was *)
+  Theorem clone_history_clone n h a h' a' :
+    clone n h a = Some (h', a') ->
+    forall ops, Forall (fun o => length h <= fst o) ops ->
+    forall m x t, abs m h x = Some t -> abs m (upds h' ops) x = Some t.
+  Proof.
+    intros H ops Hops m x t Hx. destruct (clone_P _ _ _ _ _ H) as [(e & -> & _) _]. clear H.
+    revert e. induction Hops as [|o ops Ho _ IH]; intros e; cbn [upds fold_left].
+    - now apply abs_ext.
+    - rewrite upd_app_ge by exact Ho. apply IH.
+  Qed.
+
+  Lemma upds_other : forall ops h x, Forall (fun o => fst o <> x) ops -> nth_error (upds h ops) x = nth_error h x.
+  Proof.
+    induction ops as [|o ops IH]; intros h x Hops; [reflexivity|]. cbn [upds fold_left].
+    inversion Hops as [|? ? Ho Hr]; subst. unfold upds in IH. rewrite IH by exact Hr.
+    apply nth_error_upd_other. congruence.
+  Qed.
+
+  (** C20_history_original: after any sequence of assignments to objects that existed before
+      the call, the tree of the clone is as it was *)
+  Theorem clone_history_original n h a h' a' :
+    clone n h a = Some (h', a') ->
+    forall ops, Forall (fun o => fst o < length h) ops ->
+    forall m, abs m (upds h' ops) a' = abs m h' a'.
+  Proof.
+    intros H ops Hops m. apply abs_agree. intros x Hr.
+    pose proof (clone_fresh _ _ _ _ _ H x Hr) as Lx. apply upds_other.
+    eapply Forall_impl; [|exact Hops]. intros o Ho. cbv beta in *. unfold addr in *. lia.
+  Qed.
 End Clone.
